@@ -119,6 +119,9 @@ func BaseConfig(dir string) *verifhook.Config {
 	cfg.RepoRoot = dir
 	cfg.Ledger.Type = "simple"
 	cfg.Ledger.LeveldbType = "normal"
+	// a configuration value, not a semantic change: the shipped 4MB leveldb write buffer is
+	// zero-filled on every open, which dominates the cost of short histories
+	cfg.Ledger.LeveldbWriteBufferStr = "256KB"
 	cfg.Executor.Type = "serial"
 	cfg.Executor.ProofType = "serial"
 	cfg.Executor.EnableAudit = true
